@@ -19,6 +19,6 @@ CONSTANTS
   Quotes <- QuotesQ
 SPECIFICATION LiveSpec
 VIEW View
-INVARIANTS Inv
+INVARIANTS Inv Calm StatedImpliesExact
 PROPERTIES Release
 CHECK_DEADLOCK FALSE
